@@ -23,16 +23,24 @@ def generations_source(model, cls):
     if not pr or pr[0] is None:
         raise AnalysisError('no generations property on %s' % cls.name)
     g = pr[0]
-    rets = [n for n in walk_no_nested(g.node) if isinstance(n, ast.Return)]
-    if len(rets) != 1:
-        raise AnalysisError('generations getter of %s has %d returns' % (cls.name, len(rets)))
-    txt = ''.join(unparse(rets[0].value).split())
+    from .common import return_terms
+    from .. import terms as T
     sn = selfname_of(g)
-    if txt == 'max(0,len(%s._stepmon)-1)' % sn:
-        return 'stepmon', g
-    if txt == 'max(0,len(%s.energy_history)-1)' % sn:
-        return 'energy_history', g
-    return txt, g
+    rts = return_terms(g.node)
+    if not rts:
+        raise AnalysisError('generations getter of %s has no return' % cls.name)
+    kinds = set()
+    for p, term, b, conds in rts:
+        k = T.show(term)
+        if term[0] == 'call' and T.show(term[1]) == 'max' and len(term[2]) == 2 and T.num(0) in term[2]:
+            other = [a for a in term[2] if a != T.num(0)][0]
+            for log, name in ((('attr', ('name', sn), '_stepmon'), 'stepmon'), (('attr', ('name', sn), 'energy_history'), 'energy_history')):
+                if other == T.simp(T.padd(('call', ('name', 'len'), (log,), ()), T.num(-1))):
+                    k = name
+        kinds.add(k)
+    if len(kinds) != 1:
+        return ' / '.join(sorted(kinds)), g
+    return kinds.pop(), g
 
 
 def gens(state, source):
@@ -41,11 +49,13 @@ def gens(state, source):
     return max(0, n - 1)
 
 
-def _relevant(sn):
+def _relevant(sn, cond_names=()):
     def rel(n):
         if isinstance(n, ast.Call) and (self_call(n, '_stepmon', sn)):
             return True
         if isinstance(n, ast.Attribute) and n.attr in ('energy_history', '_energy_history', '_stepmon', 'generations', '_live'):
+            return True
+        if isinstance(n, ast.Assign) and len(n.targets) == 1 and isinstance(n.targets[0], ast.Name) and n.targets[0].id in cond_names:
             return True
         if isinstance(n, ast.Call) and isinstance(n.func, ast.Name) and n.func.id == 'callback':
             return True
@@ -53,53 +63,64 @@ def _relevant(sn):
     return rel
 
 
-def _cond_truth(test, state, source, sn, live):
-    """truth of a branch test under the abstract state, or None if unconstrained.
-    Reading the *property* ``energy_history`` never yields None (its getter falls back to the
-    step monitor's list - checked by C04.c), so ``self.energy_history != None`` is always true;
-    only the stored attribute ``_energy_history`` tells whether the history is decoupled."""
-    if isinstance(test, ast.BoolOp):
-        vals = [_cond_truth(v, state, source, sn, live) for v in test.values]
-        if isinstance(test.op, ast.And):
+def _cond_truth(test, state, source, sn, live, builder=None):
+    """truth of a branch test under the abstract state, or None if unconstrained.  The test is evaluated as a canonical
+    term with the plain locals substituted (`unlogged = self._live and self._energy_history is not None; if unlogged:`).
+    Reading the *property* ``energy_history`` never yields None (its getter falls back to the step monitor's list -
+    checked by C04.c), so ``self.energy_history != None`` is always true; only the stored attribute
+    ``_energy_history`` tells whether the history is decoupled."""
+    from .. import terms as T
+    tt = T.simp(builder.t(test)) if builder is not None else T.term(test)
+    return _term_truth(tt, state, source, sn, live)
+
+
+def _term_truth(tt, state, source, sn, live):
+    from .. import terms as T
+    S = ('name', sn)
+    L, E = state
+    k = tt[0] if isinstance(tt, tuple) and tt else None
+    if k in ('and', 'or'):
+        vals = [_term_truth(v, state, source, sn, live) for v in tt[1:]]
+        if k == 'and':
             if any(v is False for v in vals):
                 return False
             return True if all(v is True for v in vals) else None
         if any(v is True for v in vals):
             return True
         return False if all(v is False for v in vals) else None
-    if isinstance(test, ast.UnaryOp) and isinstance(test.op, ast.Not):
-        v = _cond_truth(test.operand, state, source, sn, live)
+    if k == 'not':
+        v = _term_truth(tt[1], state, source, sn, live)
         return None if v is None else (not v)
-    txt = ''.join(unparse(test).split())
-    L, E = state
-    if txt == 'len(%s._stepmon)' % sn:
+    if tt == ('call', ('name', 'len'), (('attr', S, '_stepmon'),), ()):
         return L > 0
-    if txt == '%s.generations' % sn:
+    if tt == ('attr', S, 'generations'):
         return gens(state, source) > 0
-    if txt in ('%s.energy_history!=None' % sn, '%s.energy_historyisnotNone' % sn):
-        return True
-    if txt in ('%s.energy_history==None' % sn, '%s.energy_historyisNone' % sn):
-        return False
-    if txt in ('%s._energy_history!=None' % sn, '%s._energy_historyisnotNone' % sn):
-        return E is not None
-    if txt in ('%s._energy_history==None' % sn, '%s._energy_historyisNone' % sn):
-        return E is None
-    if txt == '%s._live' % sn:
+    if tt == ('attr', S, '_live'):
         return live
+    if k == 'cmp' and tt[1] in ('is', 'isnot', '==', '!=') and ('const', None) in (tt[2], tt[3]):
+        other = tt[3] if tt[2] == ('const', None) else tt[2]
+        positive = tt[1] in ('is', '==')
+        if other == ('attr', S, 'energy_history'):
+            return not positive          # the property never returns None
+        if other == ('attr', S, '_energy_history'):
+            return (E is None) == positive
+    shown = T.show(tt)
     for bad in ('_stepmon', 'generations', 'energy_history'):
-        if bad in txt:
-            raise AnalysisError('unrecognised bookkeeping test `%s`' % unparse(test))
+        if bad in shown:
+            raise AnalysisError('unrecognised bookkeeping test `%s`' % shown[:80])
     return None
 
 
 def run_path(path, state, source, sn, live=True):
     """returns (new_state, n_stepmon_calls, n_callbacks, events) or None if the path is infeasible from state"""
+    from .. import terms as T
     L, E = state
     nrec = ncb = 0
     log = []
+    bld = T.Builder()
     for e in path.events:
         if e[0] == 'cond':
-            tv = _cond_truth(e[1], (L, E), source, sn, live)
+            tv = _cond_truth(e[1], (L, E), source, sn, live, bld)
             if tv is not None and tv != e[2]:
                 return None
         elif e[0] in ('stmt', 'partial'):
@@ -126,6 +147,8 @@ def run_path(path, state, source, sn, live=True):
                 else:
                     raise AnalysisError('unrecognised energy-history update `%s`' % unparse(st))
                 log.append(('history', st))
+            elif isinstance(st, ast.Assign) and len(st.targets) == 1 and isinstance(st.targets[0], ast.Name):
+                bld.exec_stmt(st)      # plain locals used by later tests
     return (L, E), nrec, ncb, log
 
 
@@ -141,8 +164,14 @@ class StepModel(object):
         if self.step is None or self.fin is None:
             raise AnalysisError('no _Step/Finalize on %s' % cls.name)
         self.sn = selfname_of(self.step)
-        self.step_paths = [p for p in enumerate_paths(self.step.node, relevant=_relevant(self.sn)) if p.exit != 'raise']
-        self.fin_paths = [p for p in enumerate_paths(self.fin.node, relevant=_relevant(selfname_of(self.fin))) if p.exit != 'raise']
+        def cond_names(fnode):
+            out = set()
+            for n in walk_no_nested(fnode):
+                if isinstance(n, (ast.If, ast.While, ast.IfExp)):
+                    out |= set(x.id for x in ast.walk(n.test) if isinstance(x, ast.Name))
+            return out
+        self.step_paths = [p for p in enumerate_paths(self.step.node, relevant=_relevant(self.sn, cond_names(self.step.node))) if p.exit != 'raise']
+        self.fin_paths = [p for p in enumerate_paths(self.fin.node, relevant=_relevant(selfname_of(self.fin), cond_names(self.fin.node))) if p.exit != 'raise']
 
     def explore(self, max_L=6):
         """BFS over abstract states; returns list of transitions
